@@ -202,7 +202,7 @@ func (f GitBranchFinder) Find(allEntries []Entry) (entries []Entry, err error) {
 			goto NEXT
 		}
 		for i, globEntry := range allEntries {
-			if entry.Path.Name == globEntry.Path.Name && entry.Rule.IsSame(globEntry.Rule) {
+			if entry.Path.Name == globEntry.Path.Name && entry.Rule.IsSame(globEntry.Rule) && isSamePathError(entry.PathError, globEntry.PathError) {
 				allEntries[i].State = entry.State
 				allEntries[i].ModifiedLines = entry.ModifiedLines
 				found = true
@@ -217,6 +217,15 @@ func (f GitBranchFinder) Find(allEntries []Entry) (entries []Entry, err error) {
 
 	slog.Debug("Git branch finder completed", slog.Int("count", len(allEntries)))
 	return allEntries, nil
+}
+
+// isSamePathError tells apart entries that carry no rule, only a file level error:
+// a file can have more than one of those and Rule.IsSame is true for any two of them.
+func isSamePathError(a, b error) bool {
+	if a == nil || b == nil {
+		return a == nil && b == nil
+	}
+	return a.Error() == b.Error()
 }
 
 func (f GitBranchFinder) shouldSkipAllChecks(changes []*git.FileChange) (bool, error) {
